@@ -8,6 +8,8 @@ import (
 	"fmt"
 	"log/syslog"
 	"net"
+	"os"
+	"path/filepath"
 	"sync"
 
 	tq "github.com/facebookincubator/tacquito"
@@ -55,6 +57,14 @@ type Options struct {
 	Sink     Sink
 	Keychain Keychain
 	Format   string // "yaml" (default) or "json"
+	// UM, if set, is used instead of a document loader (doc is ignored): whatever arrives on its Config()
+	// channel is what the Loader builds from
+	UM interface {
+		Unmarshal(b []byte) error
+		Config() chan config.ServerConfig
+	}
+	// ViaFile: the first document is written to a file and read with Load(path), as cmds/server/main.go does
+	ViaFile bool
 	// Syslog, if set, makes the stack register the syslog accounter (which cmds/server/main.go leaves
 	// out) for accounters of type SYSLOG, writing to this writer
 	Syslog *syslog.Writer
@@ -98,7 +108,26 @@ func New(doc []byte, o Options) (*Stack, error) {
 	} else {
 		um = yamll.New()
 	}
-	if err := um.Unmarshal(doc); err != nil {
+	if o.UM != nil {
+		um = o.UM
+	} else if o.ViaFile {
+		dir, err := os.MkdirTemp("", "verif-refsrv-")
+		if err != nil {
+			return nil, err
+		}
+		defer os.RemoveAll(dir)
+		path := filepath.Join(dir, "tacquito."+map[bool]string{true: "json", false: "yaml"}[o.Format == "json"])
+		if err := os.WriteFile(path, doc, 0o600); err != nil {
+			return nil, err
+		}
+		l, ok := um.(interface{ Load(string) error })
+		if !ok {
+			return nil, fmt.Errorf("the document loader has no Load")
+		}
+		if err := l.Load(path); err != nil {
+			return nil, err
+		}
+	} else if err := um.Unmarshal(doc); err != nil {
 		return nil, err
 	}
 	if o.Sink == nil {
